@@ -939,6 +939,76 @@ Section Keys.
       exists s2. repeat split; auto; apply K4'.
   Qed.
 
+  (** ** K1 with [remove_empty]: cleaning keeps keys distinct *)
+  Lemma NoDup_map_inj_In {A B} (g : A -> B) l x y :
+    NoDup (map g l) -> In x l -> In y l -> g x = g y -> x = y.
+  Proof.
+    induction l as [|a l IH]; intros Hn Hx Hy E; [destruct Hx|]. cbn in Hn. inversion Hn as [|? ? Hna Hnl]; subst.
+    destruct Hx as [->|Hx], Hy as [->|Hy]; auto.
+    - exfalso. apply Hna. rewrite E. apply in_map; exact Hy.
+    - exfalso. apply Hna. rewrite <- E. apply in_map; exact Hx.
+  Qed.
+
+  Lemma prune_shape_nodup {B} (g : stmt -> B) names s s' :
+    prune_shape names s = inl s' -> NoDup (map g (sh_stmts s)) -> NoDup (map g (sh_stmts s')).
+  Proof.
+    unfold prune_shape. destruct (existsb (fun st => s_choice st) (sh_stmts s)); [discriminate|].
+    intros H; injection H as <-. cbn [sh_stmts]. intros Hn.
+    set (keep := filter (fun st => negb (mem_str (s_type st) names)) (sh_stmts s)).
+    assert (Hk : NoDup (map g keep)) by (apply NoDup_map_filter; exact Hn).
+    rewrite map_app. apply NoDup_app_intro; try (apply NoDup_map_filter; exact Hk).
+    intros x H1 H2. apply in_map_iff in H1, H2. destruct H1 as [y1 [E1 Y1]]. destruct H2 as [y2 [E2 Y2]].
+    apply filter_In in Y1, Y2. destruct Y1 as [Y1 I1]. destruct Y2 as [Y2 I2].
+    assert (y1 = y2) by (apply (NoDup_map_inj_In g keep); congruence). subst y2.
+    rewrite I2 in I1. discriminate.
+  Qed.
+
+  Lemma clean_shapes_nodup {B} (g : stmt -> B) fuel l l' :
+    clean_shapes fuel l = inl l' -> forall s', In s' l' ->
+    exists s, In s l /\ shape_sub s' s /\ (NoDup (map g (sh_stmts s)) -> NoDup (map g (sh_stmts s'))).
+  Proof.
+    revert l l'; induction fuel as [|f IH]; intros l l' H s' Hs'.
+    - cbn in H. injection H as <-. exists s'. split; [exact Hs'|]. split; [repeat split; auto; apply incl_refl | auto].
+    - cbn [clean_shapes] in H. destruct (empty_names l) as [|nm names] eqn:En.
+      + injection H as <-. exists s'. split; [exact Hs'|]. split; [repeat split; auto; apply incl_refl | auto].
+      + destruct (map_err (prune_shape (nm :: names)) (filter (fun s => negb (mem_str (sh_name s) (nm :: names))) l))
+          as [l2|e] eqn:Em; [|discriminate].
+        destruct (IH l2 l' H s' Hs') as [s2 [Hs2 [(A1 & A2 & A3 & A4) A5]]].
+        apply map_err_Forall2 in Em. destruct (Forall2_In_r _ _ _ _ Em Hs2) as [s [Hs Hp]].
+        apply filter_In in Hs. destruct Hs as [Hs _].
+        destruct (prune_shape_sub _ _ _ Hp) as (B1 & B2 & B3 & B4).
+        exists s. split; [exact Hs|]. split.
+        * unfold shape_sub. rewrite A1, A2, A3, B1, B2, B3. repeat split; auto.
+          intros st Hst. apply A4 in Hst. apply B4 in Hst. tauto.
+        * intros Hn. apply A5. apply (prune_shape_nodup g _ _ _ Hp Hn).
+  Qed.
+
+  (** K1 (C02) with [remove_empty]: what is left are shapes of classes of the
+      profile; a key present has an entry at or above the threshold (the
+      converse fails exactly for references to removed shapes); no key twice *)
+  Theorem K1_remove thr P C shapes :
+    x_remove_empty cfg = true -> shex fa cfg thr P C = inl shapes ->
+    forall sh, In sh shapes ->
+    exists ce, In ce P /\ sh_name sh = shape_name (x_shapes_ns cfg) (fst ce) /\ sh_class sh = fst ce /\
+      sh_n sh = cnt_of C (fst ce) /\ sh_stmts sh <> [] /\
+      (forall inv p vc, In (inv, p, vc) (map skey (sh_stmts sh)) ->
+                        key_passes thr (cnt_of C (fst ce)) (class_pd ce inv) p vc) /\
+      (pd_no_nl (class_pd ce false) -> pd_no_nl (class_pd ce true) -> NoDup (map skey (sh_stmts sh))).
+  Proof.
+    intros Hre H sh Hsh. destruct (shex_unfold thr P C shapes H) as [shapes0 [F Hc]]. rewrite Hre in Hc.
+    destruct (clean_shapes_nodup skey _ _ _ Hc sh Hsh) as [sh0 [H0 [(A1 & A2 & A3 & A4) A5]]].
+    destruct (Forall2_In_r _ _ _ _ F H0) as [ce [Hce Hs]].
+    destruct (shex_class_unfold thr C ce sh0 Hs) as (vd & vi & _ & _ & _ & E1 & E2 & E3).
+    exists ce. rewrite A1, A2, A3. split; [exact Hce|]. split; [exact E1|]. split; [exact E2|]. split; [exact E3|].
+    split; [|split].
+    - intros Hnil. pose proof (clean_shapes_no_empty _ shapes0 shapes (Nat.lt_succ_diag_r _) Hc) as Hno.
+      assert (In (sh_name sh) (empty_names shapes)) by (apply empty_names_In; exists sh; auto).
+      rewrite Hno in H1. destruct H1.
+    - intros inv p vc Hin. apply (shex_class_keys thr C ce sh0 Hs).
+      apply in_map_iff in Hin. destruct Hin as [st [Ek Hst]]. rewrite <- Ek. apply in_map, A4, Hst.
+    - intros N0 N1. apply A5. apply (shex_class_NoDup thr C ce sh0 Hs N0 N1).
+  Qed.
+
   (** ** what needs laws of the frequency algebra
 
       [okN] singles out the class sizes and [okF] the frequency values on
